@@ -432,16 +432,24 @@ def o8(ctx, rep):
         return 1
     (bb, t) = begin[0]
 
-    def seq_roots(op):
-        return {(r.kind, r.bb, str(r.what)) for r in trace(R, op) if r.kind in ("binop", "param", "call", "const")}
+    def in_R(rs):
+        return {(r.kind, r.bb, str(r.what)) for r in rs if r.body == R.id and r.kind in ("binop", "param", "call", "const") and not (r.kind == "call" and str(r.what) in ctx.facts.bodies)}
 
-    a = seq_roots(t["args"][1])
+    a = in_R(xtrace(ctx.facts, R, t["args"][1]))
+    # every construction of a Meta whose sync_seqn field is computed in Sync::sync (directly, or in a helper it calls)
     meta_val = None
-    for b in range(R.n):
-        for s in R.stmts(b):
-            if s["k"] == "assign" and s["rv"]["k"] == "agg" and s["rv"].get("name") == "nomt::store::meta::Meta":
-                fl = s["rv"]["fields"]
-                meta_val = seq_roots(s["rv"]["ops"][fl.index("sync_seqn")])
+    for body in ctx.facts.bodies.values():
+        if body.crate != "nomt" or "::tests::" in body.id:
+            continue
+        for b in range(body.n):
+            for s in body.stmts(b):
+                if s["k"] == "assign" and s["rv"]["k"] == "agg" and s["rv"].get("name") == "nomt::store::meta::Meta":
+                    fl = s["rv"]["fields"]
+                    rs = xtrace(ctx.facts, body, s["rv"]["ops"][fl.index("sync_seqn")])
+                    if body.id != R.id and not any(r.body == R.id for r in rs):
+                        continue
+                    v = in_R(rs)
+                    meta_val = v if meta_val is None else (meta_val | v)
     ok = meta_val is not None and a == meta_val and any(k == "binop" for (k, _b, _w) in a)
     rep.check(ok, "O8", fn, "same-seqn", "the sequence number written into the WAL (%s) and the one put into the meta page (%s) are not the same value" % (sorted(a), sorted(meta_val or [])), site=t.get("ln"), detail="both are the value `self.sync_seqn + 1` computed at one site")
     # self.sync_seqn stores only after Meta::write succeeded
